@@ -72,6 +72,7 @@ use std::collections::BTreeMap;
 use std::sync::Arc;
 
 use hickory_proto::op::Message;
+use hickory_proto::rr::rdata::opt::NSIDPayload;
 use hickory_proto::rr::{TSigVerifier, TSigner};
 use hickory_server::zone_handler::{AxfrPolicy, Catalog};
 use serde_json::{json, Value};
@@ -94,6 +95,10 @@ struct World {
     h: Arc<Handler>,
     cat: Catalog,
     base: Snap,
+    /// transfer policy of the zone handler (AllowSigned except in the policy probes)
+    policy: AxfrPolicy,
+    /// `Catalog::set_nsid`: the server answers an NSID request with this payload (RFC 5001)
+    nsid: Option<Vec<u8>>,
 }
 
 impl World {
@@ -104,14 +109,42 @@ impl World {
         let h = Arc::new(rt.block_on(env.open(":memory:", AxfrPolicy::AllowSigned))?);
         let cat = catalog_for(&h);
         let base = snapshot(&rt, &h);
-        Ok(World { rt, env, zone0, h, cat, base })
+        Ok(World { rt, env, zone0, h, cat, base, policy: AxfrPolicy::AllowSigned, nsid: None })
     }
     fn reset(&mut self) -> Result<(), String> {
-        let h = Arc::new(self.rt.block_on(self.env.open(":memory:", AxfrPolicy::AllowSigned))?);
+        let h = Arc::new(self.rt.block_on(self.env.open(":memory:", self.policy))?);
         self.cat = catalog_for(&h);
         self.h = h;
         self.base = snapshot(&self.rt, &self.h);
+        self.apply_nsid();
         Ok(())
+    }
+    fn apply_nsid(&mut self) {
+        let payload = self.nsid.as_ref().and_then(|b| NSIDPayload::new(b.clone()).ok());
+        self.cat.set_nsid(payload);
+    }
+    fn set_nsid(&mut self, nsid: Option<Vec<u8>>) {
+        self.nsid = nsid;
+        self.apply_nsid();
+    }
+    fn set_policy(&mut self, policy: AxfrPolicy) -> Result<(), String> {
+        self.policy = policy;
+        self.reset()
+    }
+    fn policy_name(&self) -> &'static str {
+        match self.policy {
+            AxfrPolicy::AllowSigned => "allow-signed",
+            AxfrPolicy::AllowAll => "allow-all",
+            AxfrPolicy::Deny => "deny",
+        }
+    }
+}
+
+fn policy_of(name: &str) -> AxfrPolicy {
+    match name {
+        "allow-all" => AxfrPolicy::AllowAll,
+        "deny" => AxfrPolicy::Deny,
+        _ => AxfrPolicy::AllowSigned,
     }
 }
 
@@ -153,8 +186,9 @@ impl Verifier {
 
 /// the authentic form of a base request: (signed bytes, client-side verifier)
 fn sign_base(unsigned: &[u8], key: &Key, time: u64) -> Result<(Vec<u8>, Verifier), String> {
-    let flags = refwire::read_header(unsigned)?.flags;
-    if flags & F_Z != 0 {
+    // what hickory's message model cannot express (reserved header bit, advertised payload size
+    // below 512) is signed over the exact bytes by the reference
+    if !Spec::parse(unsigned)?.client_expressible() {
         let signed = reftsig::sign_request(unsigned, key, time, FUDGE as u16);
         let req_mac = reftsig::locate(&signed)?.mac;
         Ok((signed, Verifier::Raw { signer: signer_of(key), req_mac, time }))
@@ -436,6 +470,7 @@ fn case_json(w: &World, wb: Option<&World>, kind: &str, req_kind: &str, unsigned
         "keys": w.env.keys.iter().map(|k| json!({"name": show(&k.name), "alg": k.alg.name(), "secret": hex(&k.secret)})).collect::<Vec<_>>(),
         "unsigned_request": hex(unsigned), "signing_key": key_idx, "signed_at": time,
         "bytes": hex(bytes), "server_clock": now, "mutation": class,
+        "axfr_policy": w.policy_name(), "server_nsid": w.nsid.as_ref().map(|b| hex(b)),
     });
     if let Ok(s) = Spec::parse(unsigned) {
         c["base"] = s.json();
@@ -694,6 +729,21 @@ fn reply_probe(w: &mut World, unsigned: &[u8], key_idx: usize, time: u64, now: u
     }
     let effect = o.zone_changed || o.axfr_data;
     let zbit = spec.flags & F_Z != 0;
+    // policy probes (AXFR only; AxfrPolicy does not concern updates): signatures carry the policy
+    let policy = if spec.is_update() { AxfrPolicy::AllowSigned } else { w.policy };
+    let sig_kind = match policy {
+        AxfrPolicy::AllowSigned => req_kind.clone(),
+        _ => format!("{req_kind}@{}", w.policy_name()),
+    };
+    if policy == AxfrPolicy::Deny {
+        // nobody is authorised to transfer: the correctly signed request gets no zone data either
+        if effect {
+            p.find("only-if", "policy-deny:data-leaked".to_string(), mk(w, &signed, "genuine", "request"), json!({"policy": "deny", "effect": "none"}), json!({"axfr_records_returned": o.axfr_data, "rcode": o.rcode.map(rcode_name)}));
+        } else {
+            p.count("policy/deny/signed-axfr-refused");
+        }
+        return p;
+    }
     // the server turned the request away as unauthentic: REFUSED / NOTAUTH, or a TSIG error in the reply
     let reply_tsig_error = o.replies.first().and_then(|r| reftsig::locate(r).ok()).map(|t| t.error).unwrap_or(0);
     let refused = matches!(o.rcode, Some(REFUSED) | Some(NOTAUTH) | None) || reply_tsig_error != 0;
@@ -705,10 +755,14 @@ fn reply_probe(w: &mut World, unsigned: &[u8], key_idx: usize, time: u64, now: u
                 return p;
             }
             if !effect {
-                p.find("valid-refused", format!("{req_kind}:offset{off:+}"), mk(w, &signed, "genuine", "request"), json!("request takes effect"), json!({"rcode": o.rcode.map(rcode_name)}));
+                p.find("valid-refused", format!("{sig_kind}:offset{off:+}"), mk(w, &signed, "genuine", "request"), json!("request takes effect"), json!({"rcode": o.rcode.map(rcode_name)}));
                 return p;
             }
-            p.count(&format!("accepted/{req_kind}"));
+            if policy == AxfrPolicy::AllowAll {
+                p.count("policy/allow-all/signed-axfr-transferred");
+            } else {
+                p.count(&format!("accepted/{req_kind}"));
+            }
         }
         Expect::PrereqFails => {
             if refused {
@@ -716,7 +770,7 @@ fn reply_probe(w: &mut World, unsigned: &[u8], key_idx: usize, time: u64, now: u
                     p.count("dontcare/z-request-refused");
                     return p;
                 }
-                p.find("valid-refused", format!("{req_kind}:offset{off:+}"), mk(w, &signed, "genuine", "request"), json!("authentic request: answered from the prerequisite section"), json!({"rcode": o.rcode.map(rcode_name)}));
+                p.find("valid-refused", format!("{sig_kind}:offset{off:+}"), mk(w, &signed, "genuine", "request"), json!("authentic request: answered from the prerequisite section"), json!({"rcode": o.rcode.map(rcode_name)}));
                 return p;
             }
             // rcode / no effect are C12's business
@@ -731,9 +785,16 @@ fn reply_probe(w: &mut World, unsigned: &[u8], key_idx: usize, time: u64, now: u
         }
     }
     let Some(reply) = o.replies.first().cloned() else {
-        p.find("reply", format!("no-reply:{req_kind}"), mk(w, &signed, "genuine", "request"), json!("one reply"), json!(0));
+        p.find("reply", format!("no-reply:{sig_kind}"), mk(w, &signed, "genuine", "request"), json!("one reply"), json!(0));
         return p;
     };
+    let reply_opt = refwire::walk(&reply).ok().map(|m| (m.sections[2].iter().any(|r| r.rtype == reftsig::T_TSIG), m.sections[2].iter().find(|r| r.rtype == basegen::T_OPT).map(|r| r.rdata(&reply).to_vec())));
+    if policy == AxfrPolicy::AllowAll && matches!(reply_opt, Some((false, _))) {
+        // don't-care (outside the statement, which speaks of the signed-only policy): under
+        // AllowAll the handler never looks at the TSIG and the transfer goes out unsigned
+        p.count("dontcare/allow-all-reply-unsigned");
+        return p;
+    }
     // the request MAC, from the bytes
     let req_mac = reftsig::locate(&signed).map(|t| t.mac).unwrap_or_default();
     let ref_reply = |r: &[u8]| -> Verdict {
@@ -750,9 +811,28 @@ fn reply_probe(w: &mut World, unsigned: &[u8], key_idx: usize, time: u64, now: u
                 p.count(&format!("reply/verified/{c}"));
             }
             p.count(&format!("reply/verified/rcode-{}", o.rcode.map(rcode_name).unwrap_or("none")));
+            if policy == AxfrPolicy::AllowSigned {
+                // EDNS shape of the request whose reply verified, per request kind
+                for c in spec.edns_classes() {
+                    p.count(&format!("edns/verified/{req_kind}/{c}"));
+                }
+                let asked_nsid = spec.opt.as_ref().map(|o| o.options.iter().any(|(c, _)| *c == 3)).unwrap_or(false);
+                if asked_nsid {
+                    // does the verified reply carry the server's NSID (option code 3 first in its OPT: the only option hickory's server ever adds)
+                    let answered = matches!(&reply_opt, Some((_, Some(rd))) if rd.len() >= 4 && rd[0] == 0 && rd[1] == 3);
+                    p.count(&format!("edns/verified/{req_kind}/nsid-asked/{}", match (w.nsid.is_some(), answered) {
+                        (true, true) => "server-nsid-in-reply",
+                        (true, false) => "server-nsid-configured-not-in-reply",
+                        (false, true) => "nsid-in-reply-without-configuration",
+                        (false, false) => "server-without-nsid",
+                    }));
+                }
+            } else {
+                p.count(&format!("policy/{}/signed-reply-verified", w.policy_name()));
+            }
         }
         Ok(Err(e)) => {
-            p.find("reply", format!("reply-not-verifiable:{req_kind}:offset{off:+}"), mk(w, &signed, "genuine", "request"), json!({"client_verifier": "Ok", "reftsig_on_reply": format!("{rv:?}")}), json!({"error": e, "reply": hex(&reply)}));
+            p.find("reply", format!("reply-not-verifiable:{sig_kind}:offset{off:+}"), mk(w, &signed, "genuine", "request"), json!({"client_verifier": "Ok", "reftsig_on_reply": format!("{rv:?}")}), json!({"error": e, "reply": hex(&reply)}));
             return p;
         }
         Err(pn) => {
@@ -763,7 +843,7 @@ fn reply_probe(w: &mut World, unsigned: &[u8], key_idx: usize, time: u64, now: u
     if !matches!(rv, Verdict::Valid | Verdict::Boundary) {
         // hickory's own verifier accepted what the reference rejects: the server signed something
         // else than RFC 8945 response form
-        p.find("reply", format!("reply-not-rfc-form:{req_kind}"), mk(w, &signed, "genuine", "request"), json!("reftsig accepts the genuine reply"), json!({"reftsig": format!("{rv:?}"), "reply": hex(&reply)}));
+        p.find("reply", format!("reply-not-rfc-form:{sig_kind}"), mk(w, &signed, "genuine", "request"), json!("reftsig accepts the genuine reply"), json!({"reftsig": format!("{rv:?}"), "reply": hex(&reply)}));
         return p;
     }
     if *flips == Flips::None {
@@ -821,7 +901,13 @@ type BlameCache = BTreeMap<(String, String, String), String>;
 /// Smallest request feature that reproduces the alarm (rule, sig): none (the default-shaped twin
 /// raises it too), one single feature, or the whole combination.
 fn blame(cache: &mut BlameCache, w: &mut World, spec: &Spec, key_idx: usize, time: u64, now: u64, rule: &str, sig: &str, region: Option<&str>) -> String {
-    let feats = spec.features();
+    let mut feats = spec.features();
+    // the server-side NSID configuration counts as a feature of the situation (it only shows
+    // together with an NSID option in the request)
+    let nsid0 = w.nsid.clone();
+    if nsid0.is_some() {
+        feats.push("srv-nsid");
+    }
     if feats.is_empty() {
         return String::new();
     }
@@ -835,6 +921,7 @@ fn blame(cache: &mut BlameCache, w: &mut World, spec: &Spec, key_idx: usize, tim
     };
     let mut raised = |keep: &[&str]| -> bool {
         let twin = spec.only(keep).wire();
+        w.set_nsid(if keep.contains(&"srv-nsid") { nsid0.clone() } else { None });
         reply_probe(w, &twin, key_idx, time, now, &flips).findings.iter().any(|f| f.rule == rule && f.sig == sig)
     };
     let b = if raised(&[]) {
@@ -842,10 +929,58 @@ fn blame(cache: &mut BlameCache, w: &mut World, spec: &Spec, key_idx: usize, tim
     } else if let Some(f) = feats.iter().find(|f| raised(&[**f])) {
         f.to_string()
     } else {
-        feats.join("+")
+        // pairs (e.g. an NSID request + an NSID-configured server), then the whole combination
+        let mut pair = None;
+        'outer: for i in 0..feats.len() {
+            for j in i + 1..feats.len() {
+                if raised(&[feats[i], feats[j]]) {
+                    pair = Some(format!("{}+{}", feats[i], feats[j]));
+                    break 'outer;
+                }
+            }
+        }
+        pair.unwrap_or_else(|| feats.join("+"))
     };
+    w.set_nsid(nsid0);
     cache.insert(ck, b.clone());
     b
+}
+
+/// EDNS version other than 0 (separate case, outside the clauses): RFC 6891 6.1.3 has the server
+/// answer BADVERS, and hickory's catalog does so before any zone handler (hence before the TSIG)
+/// is looked at. Nothing is demanded of the outcome; only (a) no panic, (b) IF the reply carries a
+/// TSIG it must verify at the client. Outcomes are counted under `edns-version/*`.
+fn badvers_probe(rep: &mut Reporter, w: &mut World, unsigned: &[u8], key_idx: usize, time: u64) {
+    let key = w.env.keys[key_idx].clone();
+    let Ok(spec) = Spec::parse(unsigned) else { return };
+    let Ok((signed, mut verifier)) = sign_base(unsigned, &key, time) else { return };
+    let o = observe(w, &signed, time);
+    rep.eval();
+    rep.count("edns-version/probes");
+    let mk = |w: &World, class: &str| case_json(w, None, "badvers", &spec.kind, unsigned, key_idx, time, &signed, time, class);
+    if let Some(pn) = &o.panic {
+        rep.violation("panic", &format!("{}:genuine-edns-version", pn.site()), mk(w, "genuine-edns-version"), json!("no panic"), json!({"message": pn.message, "location": pn.location}));
+        return;
+    }
+    rep.count(if o.zone_changed || o.axfr_data { "edns-version/took-effect" } else { "edns-version/no-effect" });
+    let Some(reply) = o.replies.first() else {
+        rep.count("edns-version/no-reply");
+        return;
+    };
+    // extended rcode: upper 8 bits in the OPT TTL of the reply
+    let ext = refwire::walk(reply).ok().and_then(|m| m.sections[2].iter().find(|r| r.rtype == basegen::T_OPT).map(|r| (r.ttl >> 24) as u16)).unwrap_or(0);
+    let rcode = (ext << 4) | o.rcode.unwrap_or(0) as u16;
+    rep.count(&format!("edns-version/rcode-{}", if rcode == 16 { "BADVERS".to_string() } else { rcode.to_string() }));
+    let signed_reply = refwire::walk(reply).map(|m| m.sections[2].iter().any(|r| r.rtype == reftsig::T_TSIG)).unwrap_or(false);
+    if !signed_reply {
+        rep.count("edns-version/reply-unsigned");
+        return;
+    }
+    match mon::catch(|| verifier.verify(reply)) {
+        Ok(Ok(_)) => rep.count("edns-version/signed-reply-verified"),
+        Ok(Err(e)) => rep.violation("reply", &format!("reply-not-verifiable:{}:edns-version", spec.kind), mk(w, "genuine-edns-version"), json!({"client_verifier": "Ok"}), json!({"error": e, "reply": hex(reply)})),
+        Err(pn) => rep.violation("panic", &format!("{}:verify-genuine-reply", pn.site()), mk(w, "genuine-edns-version"), json!("no panic"), json!({"message": pn.message, "location": pn.location})),
+    }
 }
 
 /// reply clause for the genuine request; returns the rcode of the reply
@@ -931,8 +1066,15 @@ fn main() {
             .map(|a| a.iter().map(|k| Key { name: lbl(k["name"].as_str().unwrap_or("k.")), alg: match k["alg"].as_str().unwrap_or("") { "hmac-sha384" => Alg::Sha384, "hmac-sha512" => Alg::Sha512, _ => Alg::Sha256 }, secret: unhex(k["secret"].as_str().unwrap_or("")) }).collect())
             .unwrap_or_default();
         let mut w = World::new(dir.clone(), keys.clone(), zone0).expect("world");
+        // server configuration of the witness (older witnesses: signed-only policy, no NSID)
+        let nsid = c["server_nsid"].as_str().map(unhex);
+        w.nsid = nsid.clone();
+        w.set_policy(policy_of(c["axfr_policy"].as_str().unwrap_or(""))).expect("world");
         // the twin server of the leak clause, when the witness carries one
         let mut wb = if c["zone_b"].is_object() { Some(World::new(dir_b.clone(), keys, zone_from_json(&c["zone_b"])).expect("twin world")) } else { None };
+        if let Some(b) = wb.as_mut() {
+            b.set_nsid(nsid);
+        }
         let unsigned = unhex(c["unsigned_request"].as_str().unwrap_or(""));
         let key_idx = c["signing_key"].as_u64().unwrap_or(0) as usize;
         let time = c["signed_at"].as_u64().unwrap_or(T0);
@@ -943,6 +1085,8 @@ fn main() {
             let bits: Vec<u32> = c["flip_bits"].as_array().map(|a| a.iter().map(|x| x.as_u64().unwrap_or(0) as u32).collect()).unwrap_or_default();
             let t = c["transport"].as_str().unwrap_or("mux").to_string();
             check_client(&mut rep, &mut w, &req_kind, &unsigned, key_idx, time, &bits, &[t.as_str()]);
+        } else if c["kind"] == "badvers" {
+            badvers_probe(&mut rep, &mut w, &unsigned, key_idx, time);
         } else if c["kind"] == "reply" || class == "genuine" {
             check_reply(&mut rep, &mut cache, &mut w, &unsigned, key_idx, time, now, true);
         } else {
@@ -976,6 +1120,23 @@ fn main() {
         // ... and the reply clause reached for each of them
         rep.must(&format!("reply/verified/{c}"), 400);
     }
+    // EDNS shapes of genuine signed requests whose reply verified at the client, per request
+    // kind (quick tier: >= 3800 each); base requests that carry options / Z bits / a small
+    // payload themselves (quick tier: axfr >= 100 each)
+    for k in ["axfr", "update"] {
+        for c in basegen::EDNS_CLASSES {
+            rep.must(&format!("edns/verified/{k}/{c}"), 600);
+        }
+        rep.must(&format!("edns/verified/{k}/nsid-asked/server-nsid-in-reply"), 600);
+        rep.must(&format!("edns/verified/{k}/nsid-asked/server-without-nsid"), 600);
+        rep.must(&format!("base/edns/{k}/opt-with-options"), 100);
+        rep.must(&format!("base/edns/{k}/opt-options-several"), 40);
+        rep.must(&format!("base/edns/{k}/opt-z"), 15);
+        rep.must(&format!("base/edns/{k}/opt-payload-lt512"), 25);
+    }
+    rep.must("policy/allow-all/signed-axfr-transferred", 600);
+    rep.must("policy/deny/signed-axfr-refused", 600);
+    rep.must("edns-version/probes", 400);
     rep.must("base/flag/with-opt", 300);
     rep.must("reply/verified/with-opt", 800);
     rep.must("base/flag/with-opt-do", 100);
@@ -1042,10 +1203,21 @@ fn main() {
             },
             None => None,
         };
+        // server side: every second server answers NSID requests (same configuration on the twin)
+        let nsid = if rs.bool() { Some(rs.bytes_between(1, 16)) } else { None };
+        rep.count(if nsid.is_some() { "base/server-nsid/configured" } else { "base/server-nsid/none" });
+        w.set_nsid(nsid.clone());
+        if let Some(b) = wb.as_mut() {
+            b.set_nsid(nsid.clone());
+        }
         rep.count("base_requests");
         rep.count(&format!("base/{req_kind}"));
         for c in spec.classes() {
             rep.count(&format!("base/flag/{c}"));
+        }
+        // EDNS shape of the base request itself (these go through every clause, mutants included)
+        for c in spec.edns_classes() {
+            rep.count(&format!("base/edns/{req_kind}/{c}"));
         }
         if spec.is_update() {
             rep.count(&format!("base/prereq-rrs/{}", spec.pre.len()));
@@ -1063,6 +1235,47 @@ fn main() {
         let rc_a = check_reply(&mut rep, &mut cache, &mut w, &unsigned, key_idx, time, time, true);
         check_reply(&mut rep, &mut cache, &mut w, &unsigned, key_idx, time, time + FUDGE - 1, false);
         check_reply(&mut rep, &mut cache, &mut w, &unsigned, key_idx, time, time - (FUDGE - 1), false);
+
+        // EDNS sweep: the same signed request with every EDNS shape class (reply clause, no flips);
+        // a shape that asks for the NSID goes to the server with and without an NSID configured
+        // (without the reserved header bit: hickory refuses such requests, see don't-cares)
+        let sweep_base = Spec { flags: spec.flags & !F_Z, ..spec.clone() };
+        for o in basegen::edns_sweep(&mut rs) {
+            let asks_nsid = o.as_ref().map(|o| o.options.iter().any(|(c, _)| *c == 3)).unwrap_or(false);
+            let u = sweep_base.with_opt(o).wire();
+            rep.count("edns-sweep/probes");
+            check_reply(&mut rep, &mut cache, &mut w, &u, key_idx, time, time, false);
+            if asks_nsid {
+                w.set_nsid(if nsid.is_some() { None } else { Some(rs.bytes_between(1, 16)) });
+                rep.count("edns-sweep/probes");
+                check_reply(&mut rep, &mut cache, &mut w, &u, key_idx, time, time, false);
+                w.set_nsid(nsid.clone());
+            }
+        }
+        // the other transfer policies: the signed AXFR (as generated, without OPT, with options)
+        if !spec.is_update() {
+            let with_options = basegen::Opt { options: vec![basegen::gen_option(&mut rs, "cookie"), basegen::gen_option(&mut rs, "nsid")], ..basegen::Opt::plain(1232, rs.bool()) };
+            for pol in [AxfrPolicy::AllowAll, AxfrPolicy::Deny] {
+                if let Err(e) = w.set_policy(pol) {
+                    rep.inconclusive(&format!("world: {e}"));
+                    continue;
+                }
+                for u in [sweep_base.wire(), sweep_base.with_opt(None).wire(), sweep_base.with_opt(Some(with_options.clone())).wire()] {
+                    rep.count(&format!("policy/{}/probes", w.policy_name()));
+                    check_reply(&mut rep, &mut cache, &mut w, &u, key_idx, time, time, false);
+                }
+            }
+            if let Err(e) = w.set_policy(AxfrPolicy::AllowSigned) {
+                rep.inconclusive(&format!("world: {e}"));
+                continue;
+            }
+        }
+        // EDNS version != 0: separate case (BADVERS path), see `badvers_probe`
+        {
+            let v = *rs.pick(&[1u8, 2, 255]);
+            let o = basegen::Opt { version: v, options: if rs.bool() { vec![basegen::gen_option(&mut rs, "cookie")] } else { vec![] }, ..basegen::Opt::plain(1232, rs.bool()) };
+            badvers_probe(&mut rep, &mut w, &sweep_base.with_opt(Some(o)).wire(), key_idx, time);
+        }
 
         // client-side transports with a signer (multiplexer with everything in flight, UDP)
         let bits: Vec<u32> = (0..4).map(|_| rs.next_u32()).collect();
